@@ -132,7 +132,10 @@ class Module(object):
             elif isinstance(st, ast.ImportFrom):
                 mod = ('.' * st.level) + (st.module or '')
                 for a in st.names:
-                    self.imports[a.asname or a.name] = mod + '.' + a.name if mod else a.name
+                    if st.module:
+                        self.imports[a.asname or a.name] = mod + '.' + a.name
+                    else:
+                        self.imports[a.asname or a.name] = mod + a.name
             elif isinstance(st, ast.If):
                 g = self._guard_label(st.test, True)
                 # only module-level feature switches (bare names) create arms
